@@ -332,3 +332,179 @@ def replay_case(ctx, payload):
     for f in sub.oracle_failures:
         print('still failing:', f['clause'], f['detail'])
     return not sub.oracle_failures
+
+
+# ---- extras2 (harness extension hx_b): further entry points, exact scaling, large instances, containers -----------------------------------
+
+def _flat(z):
+    z = np.asarray(z)
+    return np.concatenate((z.real.ravel(), z.imag.ravel())) if np.iscomplexobj(z) else z.astype(float).ravel()
+
+
+def _x2_entry_points(ctx, cur):
+    """(3) transform_slow (rows above the cut are the transform's, the ith highest-frequency rows are left zero), dep_itransform (its own
+    definition: real part of the inverse DFT of the row sums), generate_gaussian (the window of the definition); (4) containers"""
+    from eqsig import stockwell as sw
+    from _hxb_common import same, val
+    rng = ctx.rng
+    for it in range(30 if ctx.tier == 'quick' else 300):
+        n = rng.randint(4, 70)
+        kind = rng.choice(['noise', 'dyadic', 'int-dtype', 'harmonic', 'offset'])
+        v = record(rng, n, kind)
+        vf = np.asarray(v, dtype=float)
+        N = 2 * (n // 2)
+        P = N // 2
+        inputs = {'values': v, 'kind': kind}
+        cur.clear()
+        cur.update(inputs)
+        ctx.hist('extras2/entry-points/' + kind)
+        ctx.count_case(('x2e', vf.tobytes()), len(set(vf.tolist())) > 1)
+        S = np.asarray(sw.transform(v))
+        scale = max(float(np.max(np.abs(S))), float(np.max(np.abs(vf))), 1e-300)
+        # transform_slow(ith = k >= 1).  (The default ith=0 returns an all-zero array on the pinned tree -- `aa[:-0]` is empty -- see NOTES; not demanded.)
+        ith = rng.randint(1, P) if rng.random() < 0.8 else P
+        snap = np.array(v)
+        r = call_impl(sw.transform_slow, v, ith=ith)
+        T = val(r)
+        ok = T is not None and np.shape(T) == S.shape and bool(np.all(np.asarray(T)[:ith] == 0)) and bool(np.max(np.abs(np.asarray(T)[ith:] - S[ith:]), initial=0.0) <= 1e-12 * scale)
+        ctx.oracle('C15.c transform_slow(ith=k): same shape as transform, the k highest-frequency rows are zero, every other row agrees with transform', ok,
+                   {**inputs, 'ith': ith}, detail={'shape': np.shape(T), 'max_dev': None if T is None or np.shape(T) != S.shape else float(np.max(np.abs(np.asarray(T)[ith:] - S[ith:]), initial=0.0))})
+        ctx.oracle('input array unchanged by transform_slow', same(v, snap), inputs)
+        # dep_itransform
+        snapS = S.copy()
+        r = call_impl(sw.dep_itransform, S)
+        rows = S.sum(axis=1)
+        jj = np.arange(P, dtype=np.int64)
+        want = np.real(np.exp(1j * ((np.outer(jj, jj) % P) * (2.0 * math.pi / P))) @ rows / P)
+        y = val(r)
+        ctx.oracle('C15 dep_itransform == real part of the inverse DFT of the row sums (n/2 real samples)', y is not None and np.shape(y) == (P,) and
+                   not np.iscomplexobj(y) and bool(np.max(np.abs(np.asarray(y) - want)) <= 1e-9 * scale), inputs,
+                   detail={'shape': np.shape(y), 'max_dev': None if y is None or np.shape(y) != (P,) else float(np.max(np.abs(np.asarray(y) - want)))})
+        ctx.oracle('input array unchanged by dep_itransform', same(S, snapS), inputs)
+        # generate_gaussian
+        if it % 3 == 0:
+            Pg = rng.choice([1, 2, 3, P, rng.randint(1, 80)])
+            cur.update({'n_d2': Pg})
+            r = call_impl(sw.generate_gaussian, Pg)
+            m = np.arange(2 * Pg)
+            mt = np.where(m <= Pg, m, m - 2 * Pg).astype(float)
+            K = np.arange(1, Pg + 1, dtype=float)[:, np.newaxis]
+            wantg = np.exp(-2.0 * math.pi ** 2 * mt[np.newaxis, :] ** 2 / (K * K))
+            G = val(r)
+            ctx.oracle('C15.b generate_gaussian(P)[k-1, m] == exp(-2 pi^2 m~^2 / k^2) (m~ the signed index), shape P x 2P', G is not None and np.shape(G) == (Pg, 2 * Pg)
+                       and bool(np.allclose(G, wantg, rtol=1e-10, atol=1e-300)), {'n_d2': Pg},
+                       detail={'shape': np.shape(G), 'max_abs_dev': None if G is None or np.shape(G) != (Pg, 2 * Pg) else float(np.max(np.abs(G - wantg)))})
+        # containers / dtypes (float32 records are transformed in single precision by np.fft on the pinned tree: not demanded)
+        if it % 3 == 1:
+            vi = np.array([rng.randint(-9, 9) for _ in range(n)], dtype=float)
+            cur.update({'values': vi})
+            Si, Si2 = np.asarray(sw.transform(vi)), np.asarray(sw.transform_w_scipy_fft(vi.copy()))
+            sc = max(float(np.max(np.abs(Si))), 1e-300)
+            for lab, c in gen.container_variants(vi, floats32=False):
+                ctx.hist('extras2/container/' + lab)
+                snapc = np.array(c)
+                g1, g2, g3 = val(call_impl(sw.transform, c)), val(call_impl(sw.transform_w_scipy_fft, c)), val(call_impl(sw.get_max_tifq_vals_freq, sw.transform(c), 0.01))
+                ctx.oracle('C15 the transform does not depend on the container or dtype holding the record (transform)', g1 is not None and np.shape(g1) == Si.shape
+                           and bool(np.max(np.abs(g1 - Si), initial=0.0) <= 1e-12 * sc), {'values': vi, 'container': lab})
+                ctx.oracle('C15 the transform does not depend on the container or dtype holding the record (transform_w_scipy_fft)', g2 is not None and
+                           np.shape(g2) == Si2.shape and bool(np.max(np.abs(g2 - Si2), initial=0.0) <= 1e-12 * sc), {'values': vi, 'container': lab})
+                ctx.oracle('input unchanged by transform / transform_w_scipy_fft (any container)', same(np.array(c), snapc) and np.array(c).dtype == snapc.dtype,
+                           {'values': vi, 'container': lab})
+
+
+def _x2_scale(ctx, cur):
+    """(2) transform, transform_w_scipy_fft, itransform, dep_itransform are linear: scaling the input by 2^k scales the output by 2^k EXACTLY
+    (incl. 2^+-600); the frequency trace is of degree 0 in the transform and of degree -1 in dt (exact for power-of-two factors of any size)"""
+    from eqsig import stockwell as sw
+    from _hxb_common import same, val
+    rng = ctx.rng
+    for it in range(16 if ctx.tier == 'quick' else 160):
+        n = rng.randint(4, 70)
+        kind = rng.choice(['noise', 'dyadic', 'int-dtype', 'offset'])
+        v = np.asarray(record(rng, n, kind), dtype=float)
+        inputs = {'values': v, 'kind': kind}
+        cur.clear()
+        cur.update(inputs)
+        ctx.hist('extras2/scale/' + kind)
+        S, S2 = np.asarray(sw.transform(v)), np.asarray(sw.transform_w_scipy_fft(v.copy()))
+        y, yd = np.asarray(sw.itransform(S)), np.asarray(sw.dep_itransform(S))
+        dt = rng.choice([0.01, 0.5, 0.005, 0.3])
+        mod = np.sort(np.abs(S), axis=0)
+        clear_max = S.shape[0] == 1 or bool(np.all(mod[-1] - mod[-2] > 1e-9 * np.maximum(mod[-1], 1e-300)))
+        tr = np.asarray(sw.get_max_tifq_vals_freq(S, dt))
+        for k in gen.EXTREME_POW2:
+            ctx.count_case(('x2s', k, v.tobytes()), True)
+            f = 2.0 ** k
+            with np.errstate(all='ignore'):
+                g1, g2 = val(call_impl(sw.transform, v * f)), val(call_impl(sw.transform_w_scipy_fft, v * f))
+                g3, g4 = val(call_impl(sw.itransform, S * f)), val(call_impl(sw.dep_itransform, S * f))
+                g5 = val(call_impl(sw.get_max_tifq_vals_freq, S * f, dt))
+                g6 = val(call_impl(sw.get_max_tifq_vals_freq, S, dt * f))
+            sc = {**inputs, 'scale': '2**%d' % k}
+            ctx.oracle('C15.c transform is linear: scaling the record by a power of two scales every cell exactly', g1 is not None and
+                       gen.scaled_exactly(_flat(g1), _flat(S), f), sc)
+            ctx.oracle('C15.c transform_w_scipy_fft is linear: scaling the record by a power of two scales every cell exactly', g2 is not None and
+                       gen.scaled_exactly(_flat(g2), _flat(S2), f), sc)
+            ctx.oracle('C15.e itransform is linear: scaling the transform by a power of two scales the series exactly', g3 is not None and
+                       gen.scaled_exactly(g3, y, f), sc)
+            ctx.oracle('C15 dep_itransform is linear: scaling the transform by a power of two scales the series exactly', g4 is not None and
+                       gen.scaled_exactly(g4, yd, f), sc)
+            if clear_max:
+                ctx.oracle('C15.f the dominant-frequency trace does not depend on the scale of the transform', same(g5, tr), {**sc, 'dt': dt})
+            ctx.oracle('C15.f the dominant-frequency trace scales exactly with 1/dt (power-of-two factor)', g6 is not None and gen.scaled_exactly(g6, tr, 1.0 / f),
+                       {**sc, 'dt': dt})
+
+
+def _x2_large(ctx, cur):
+    """(1) records at and above the top of the quantified range (n = 1024; thorough: 2048): all clauses of `one` (definition against the
+    independent O(N^2)/O(N^3) sums, marginal, inverse, both implementations, linearity) -- no model correspondence at these sizes"""
+    rng = ctx.rng
+    sizes = [1024, rng.choice([777, 1000, 1023])] if ctx.tier == 'quick' else [1024, 1023, 1000, 1536, 2048]
+    for n in sizes:
+        kind = rng.choice(['noise', 'offset', 'int-dtype'])
+        seed = rng.randrange(2 ** 31)
+        g = np.random.default_rng(seed)
+        v = g.standard_normal(n) if kind == 'noise' else g.standard_normal(n) + 5.0 if kind == 'offset' else g.integers(-9, 10, size=n)
+        cur.clear()
+        cur.update({'generator': 'c15._x2_large', 'kind': kind, 'n': n, 'numpy_seed': seed})
+        ctx.hist('extras2/large/n=%d' % n)
+        one(ctx, 'large/' + kind, v, with_model=False)
+
+
+def _x2_objects(ctx, cur):
+    """(5) object-level trace on objects with a history; reading it twice gives the same series.  (A record replaced by reset_values AFTER
+    the trace was read keeps the old `swtf` attribute on the pinned tree -- see NOTES; not demanded.)"""
+    import eqsig
+    from eqsig import stockwell as sw
+    from _hxb_common import same, val, light_history
+    rng = ctx.rng
+    for it in range(12 if ctx.tier == 'quick' else 120):
+        n = rng.randint(4, 90)
+        v = np.asarray(record(rng, n, rng.choice(['noise', 'dyadic', 'offset'])), dtype=float)
+        dt = rng.choice([0.01, 0.02, 0.5, 1.0, 2.0 ** -20, 2.0 ** 20])
+        cur.clear()
+        cur.update({'values': v, 'dt': dt})
+        asig = light_history(ctx, eqsig.AccSignal if it % 2 else eqsig.Signal, v, dt)
+        S = np.asarray(sw.transform(v))
+        mod = np.sort(np.abs(S), axis=0)
+        want = sw.get_max_tifq_vals_freq(S, dt)
+        f1 = val(call_impl(sw.get_max_stockwell_freq, asig))
+        f2 = val(call_impl(sw.get_max_stockwell_freq, asig))
+        ctx.oracle('C15.f get_max_stockwell_freq(signal) == get_max_tifq_vals_freq(transform(values), dt) for objects with a history; same on a second read',
+                   same(f1, want) and same(f2, want), {'values': v, 'dt': dt}, detail={'object': f1, 'array-level': want})
+        ctx.oracle('C15 get_max_stockwell_freq leaves the record of the object unchanged', same(asig.values, v) and asig.dt == dt, {'values': v, 'dt': dt})
+        ctx.last_object_history = None
+
+
+def extras2(ctx):
+    from _hxb_common import guarded_sections
+    guarded_sections(ctx, 'C15', [('entry-points', _x2_entry_points), ('scale', _x2_scale), ('large', _x2_large), ('objects', _x2_objects)])
+
+
+_run_main2 = run
+
+
+def run(ctx):
+    _run_main2(ctx)
+    extras2(ctx)
+    ctx.flush()
